@@ -56,3 +56,97 @@ PROPS = {
                    evals=dict(M="mc_mismatches", V="c03_violations"))],
     ),
 }
+
+ENGINE_TRUSTED = [
+    "models Model/Step.v, Model/Action.v are hand-written; tied to core/step.go, core/actions.go and "
+    "interpreters/ecmascript by the correspondence run (Spec.Step / Spec.Walk on generated compiled specs whose actions "
+    "and guards come from the action language, rendered as ECMAScript source and as native Go closures)",
+    "Gen/Consts.v regenerated from /repo by harness/cmd/genconsts (go/ast)",
+    "Go harness (generators, recover, watchdog, snapshots, map-identity probes), check driver, Corr/StepCorr.v",
+    "goja (evaluation of the rendered programs), encoding/json; error texts normalised to one token; traces not modelled",
+]
+
+def step_run(mode, M, V, NT=None, n=(600, 12000), extra=None):
+    evals = dict(M=M, V=V)
+    counts = ()
+    if NT:
+        evals["NT"] = NT
+        counts = ("NT",)
+    if extra:
+        evals.update(extra)
+    return dict(component="step", require="Corr.StepCorr", require_vo="Corr/StepCorr.vo",
+                n=dict(quick=n[0], thorough=n[1]), shard=150, opts=dict(mode=mode), evals=evals, counts=counts)
+
+def walk_run(mode, M, V, NT=None, n=(320, 6400), extra=None):
+    evals = dict(M=M, V=V)
+    counts = ()
+    if NT:
+        evals["NT"] = NT
+        counts = ("NT",)
+    if extra:
+        evals.update(extra)
+    return dict(component="walk", require="Corr.StepCorr", require_vo="Corr/StepCorr.vo",
+                n=dict(quick=n[0], thorough=n[1]), shard=40, opts=dict(mode=mode), evals=evals, counts=counts)
+
+STEP_RULE = ("generated compiled specifications (1-4 nodes, 0-3 branches each, both branching types incl. the invalid "
+             "action+message combination, patterns from the match generator, guards and actions from the action language as "
+             "ECMAScript and as native closures, @var and unknown targets, every combination of error settings), states "
+             "(known/unknown node, nil/empty/non-empty bindings, permanent keys), pending message or none, control nil or given. ")
+
+PROPS.update({
+    "C04": dict(
+        level="proof", trusted=ENGINE_TRUSTED,
+        rule=STEP_RULE + "Compared per step: To (node, bindings), consumed message, error class. distinct = distinct (spec, state, "
+             "pending); non-trivial = the step moved or returned an error.",
+        assumptions=["a step whose guard saw several candidates is not compared (documented as arbitrary)"],
+        runs=[step_run("c04", "c04_violations", "c04_violations", "c04_nontrivial")],
+    ),
+    "C05": dict(
+        level="proof", trusted=ENGINE_TRUSTED,
+        rule=STEP_RULE + "Walks over 0-4 messages, limits 0-12 and the default control, breakpoints (at node / binding present), "
+             "every split point of every Done walk re-run as two walks. Compared: per stride (From.node, To.node, consumed), "
+             "Remaining, stop reason; oracle c05_ok (ordered once-only consumption, step bound, truthful remainder, quiescence "
+             "and nothing dropped at a consuming node, state chain, split agreement) on the implementation's Walked. "
+             "non-trivial = at least two strides.",
+        assumptions=["messages are non-null (a null message is no message)"],
+        runs=[walk_run("c05", "c05_mismatches", "c05_violations", "c05_nontrivial")],
+    ),
+    "C06": dict(
+        level="proof", trusted=ENGINE_TRUSTED + ["provenance is not modelled: the model is a pure function; aliasing is observed on "
+                                                 "the implementation (deep snapshots, map identity), not proved (partial)"],
+        rule=STEP_RULE + "Every Step and Walk call made twice; deep snapshots of state, messages, branch patterns, control and props "
+             "before/after; reflect-based identity of every returned State.Bs map against the input map; native actions that hand "
+             "back the map they were given. non-trivial = a failing action, a step error, or a move through an action node.",
+        assumptions=["sharing below the top-level bindings map is outside the property"],
+        runs=[step_run("c06", "no_mismatches", "c06_step_violations"),
+              walk_run("c06", "no_mismatches", "c06_walk_violations")],
+    ),
+    "C07": dict(
+        level="proof", trusted=ENGINE_TRUSTED,
+        rule=STEP_RULE + "Step and Walk under recover() and a watchdog, control nil in 30% of the calls, actions and guards that throw, "
+             "time out (25 ms deadline), return null / a number, emit an unserialisable value, native actions failing with and "
+             "without a partial Execution, states with nil bindings and permanent keys, unknown nodes, uncompiled specs. "
+             "Compared: crash/hang/normal, error class, and wherever the model ends a stride at an error-carrying state the "
+             "implementation's state. non-trivial = a failing action, an error, or nil bindings.",
+        assumptions=[],
+        runs=[step_run("c07", "c07_step_mismatches", "c07_step_violations"),
+              walk_run("c07", "c07_walk_mismatches", "c07_walk_violations", "c07_nontrivial")],
+    ),
+    "C08": dict(
+        level="proof", trusted=ENGINE_TRUSTED,
+        rule=STEP_RULE + "Action programs emit^i ; mutate^j ; terminate, the terminator failing by throw, timeout, non-object return or "
+             "unserialisable emission. Compared: emitted lists only, per stride. non-trivial = the node's action emits.",
+        assumptions=[],
+        runs=[step_run("c08", "c08_step_violations", "c08_step_violations"),
+              walk_run("c08", "c08_walk_violations", "c08_walk_violations", "c08_nontrivial")],
+    ),
+    "C18": dict(
+        level="proof", trusted=ENGINE_TRUSTED,
+        rule=STEP_RULE + "States carry permanent bindings (cfg!, ver!); actions and guards delete, overwrite, delete all, return a fresh "
+             "object, null, or fail. Oracle on the implementation's before/after: every permanent binding present before is "
+             "present with its value in the produced state (unless the action returned null). non-trivial = a state with a "
+             "permanent binding moved through an action node or a guarded branch.",
+        assumptions=["an action that returns null (no bindings at all) is outside the property's 'returns bindings'"],
+        runs=[step_run("c18", "no_mismatches", "c18_violations", "c18_nontrivial")],
+    ),
+})
